@@ -82,6 +82,13 @@ class Exec(ExprMixin, CallMixin, BuiltinMixin, StmtMixin, ExecBase):
             for ln in c.local_sorts:
                 if ln not in stored and ln not in ghosts and not ln.startswith("_"):
                     raise BindError("contract of %s mentions the local `%s`, which the function no longer assigns" % (c.qn, ln))
+        if kind != "module" and c.ghost:
+            # a ghost update is anchored at a statement by the prefix of its text: after a refactor that removes the statement the contract
+            # no longer binds (undecided), instead of silently leaving the ghost variable at its initial value
+            texts = [ast.unparse(n) for n in ast.walk(node) if isinstance(n, ast.stmt)]
+            for anchor in c.ghost:
+                if anchor.startswith("after:") and not any(t.startswith(anchor[6:]) for t in texts):
+                    raise BindError("ghost anchor `%s` of the contract of %s matches no statement of the function any more" % (anchor[6:], c.qn))
         for p in c.params:
             if p not in fparams and kind != "module":
                 raise BindError("contract parameter %s is not a parameter of %s" % (p, c.qn))
